@@ -22,6 +22,7 @@ def check(ctx):
     spanrules.rule_finish_submits(ctx, facts, "R1")
     spanrules.rule_signals_forced(ctx, facts, "R2")
     spsc.rule_force_send_keeps(ctx, facts, "R2")
+    spsc.rule_replay_keeps(ctx, facts, "R2")
     spsc.rule_try_recv(ctx, facts, "R3")
     spsc.rule_sender_drop(ctx, facts, "R4")
     if c.need("R5"):
